@@ -448,6 +448,14 @@ _CUT_NEW = "	for more := true; more; {\n		var v string\n		v, h, more = strings.C
 add('C11','r13-benign-header-loop-by-cut',OP,_CUT_OLD,_CUT_NEW,'silent','the final return true is behind the exit edge of the loop header')
 addm('C11','r13-cut-loop-one-allowed-header-grants-all',[(OP,_CUT_OLD,_CUT_NEW),(OP,"		if !slices.ContainsFunc(c.AllowHeaders, func(h string) bool { return strings.EqualFold(h, v) }) {\n			return false\n		}\n	}\n\n	return true\n}","		if slices.ContainsFunc(c.AllowHeaders, func(h string) bool { return strings.EqualFold(h, v) }) {\n			return true\n		}\n	}\n\n	return false\n}")],'violation:C11.R7')
 
+# ---------------- section 37: the tail of both summary builders in a setter that is handed the node
+_SET_E1_OLD = "	n.methodIndex = 0\n	for method := range n.handlers {\n		n.methodIndex += methodIndexMap[method]\n	}\n	if n.root.hasTrace {\n		n.methodIndex += methodIndexMap[http.MethodTrace]\n	}\n	buildMethodIndexes(n.methodIndex)\n}\n"
+def _set_e1(arg): return "	index := 0\n	for method := range n.handlers {\n		index += methodIndexMap[method]\n	}\n	n.root.setMethodIndex(n, "+arg+")\n}\n\nfunc (tree *Tree[T]) setMethodIndex(n *node[T], index int) {\n	if tree.hasTrace {\n		index += methodIndexMap[http.MethodTrace]\n	}\n	n.methodIndex = index\n	buildMethodIndexes(index)\n}\n"
+_SET_E2_OLD = "	tree.node.methodIndex = methodIndexMap[http.MethodOptions]\n	if tree.hasTrace {\n		tree.node.methodIndex += methodIndexMap[http.MethodTrace]\n	}\n\n	for m, num := range tree.methods {\n		if num > 0 {\n			tree.node.methodIndex += methodIndexMap[m]\n		}\n	}\n\n	buildMethodIndexes(tree.node.methodIndex)\n}"
+_SET_E2_NEW = "	index := methodIndexMap[http.MethodOptions]\n	for m, num := range tree.methods {\n		if num > 0 {\n			index += methodIndexMap[m]\n		}\n	}\n	tree.setMethodIndex(tree.node, index)\n}"
+addm('C04','r13-benign-summary-setter-handed-the-node',[(ME,_SET_E1_OLD,_set_e1('index')),(ME,_SET_E2_OLD,_SET_E2_NEW)],'silent','a setter is any function handed the node and the value')
+addm('C04','r13-setter-handed-a-value-computed-from-the-sum',[(ME,_SET_E1_OLD,_set_e1('index&^1')),(ME,_SET_E2_OLD,_SET_E2_NEW)],'violation:C04.R5')
+
 for pid,entries in C.items():
     os.makedirs(os.path.join(base,pid),exist_ok=True)
     json.dump(entries,open(os.path.join(base,pid,'entries.json'),'w'),indent=1,ensure_ascii=False)
